@@ -239,7 +239,7 @@ theorem relink_installs_link (c : Cfg) (t p : Nat) (rhs : Rhs) (d : PDecl) (w : 
     · exfalso; have : tg.vals[p]? = none := by simp; omega
       simp [Target.read, this] at hread
   have hsupp : Op.supported c (.set t p rhs) = true := by
-    simp [Op.supported, keySupported, hd, hsup, hallow]
+    simp [Op.supported, keySupported, hd, hsup, hallow, href]
   have hrfs : resolveForSet c d (dictGet tg.refs p).isSome rhs w = some (some v, .link rhs) := by
     unfold resolveForSet; simp [hsup, hallow, href, hres]
   have hsk : skipsForSet c d rhs w = false := by unfold skipsForSet; simp [hns]
@@ -277,7 +277,7 @@ theorem skipping_reference_becomes_the_link (c : Cfg) (t p : Nat) (rhs : Rhs) (d
         rw [this] at hd; cases hd
     simp [nparams, hds]; exact this
   have hsup : Op.supported c (.set t p rhs) = true := by
-    simp [Op.supported, keySupported, hd, hparts.1, hparts.2.1]
+    simp [Op.supported, keySupported, hd, hparts.1, hparts.2.1, hparts.2.2]
   have hrfs : resolveForSet c d (dictGet tg.refs p).isSome rhs w = some (some v, .link rhs) := by
     unfold resolveForSet; simp [hparts.1, hparts.2.1, hparts.2.2, hres]
   have hset : setInst c t p rhs w = (.ok, applyRelink c t p (.link rhs) w, []) := by
